@@ -42,11 +42,11 @@ impl Val {
             Val::Float(f) => OwnedValue::Float(*f),
         }
     }
-    /// what value_to_sql_literal prints for a float: Rust's Display (an oracle column of the model)
+    /// what value_to_sql_literal prints for a float: Rust's `{:?}` (an oracle column of the model)
     fn float_shown(f: f64) -> String {
         if f.is_nan() { "'NaN'".into() }
         else if f.is_infinite() { if f.is_sign_positive() { "'Infinity'".into() } else { "'-Infinity'".into() } }
-        else { f.to_string() }
+        else { format!("{:?}", f) }
     }
     /// harness copy of value_to_sql_literal (private in /repo); checked against the Coq model on every case
     fn shown(&self) -> String {
@@ -61,20 +61,15 @@ impl Val {
     }
     /// the equivalent SQL literal of the property's reference statement.  Floats: Rust's shortest
     /// round-trip form, which always lexes as a Float token (`1.0`, `1e300`, `1e-7`).
-    fn canon(&self) -> String {
-        match self {
-            Val::Float(f) => format!("{:?}", f),
-            v => v.shown(),
-        }
-    }
+    fn canon(&self) -> String { self.shown() }
     fn coq(&self) -> String {
         match self {
-            Val::Null => "(P VNull [])".into(),
-            Val::Bool(b) => format!("(P (VBool {}) [])", cbool(*b)),
-            Val::Int(i) => format!("(P (VInt {}) [])", z(*i)),
-            Val::Text(s) => format!("(P (VText {}) [])", cbytes(s.as_bytes())),
-            Val::Blob(b) => format!("(P (VBlob {}) [])", cbytes(b)),
-            Val::Float(f) => format!("(P (VFloat {} {}) {})", f.to_bits(), cbytes(Val::float_shown(*f).as_bytes()), cbytes(self.canon().as_bytes())),
+            Val::Null => "VNull".into(),
+            Val::Bool(b) => format!("(VBool {})", cbool(*b)),
+            Val::Int(i) => format!("(VInt {})", z(*i)),
+            Val::Text(s) => format!("(VText {})", cbytes(s.as_bytes())),
+            Val::Blob(b) => format!("(VBlob {})", cbytes(b)),
+            Val::Float(f) => format!("(VFloat {} {})", f.to_bits(), cbytes(Val::float_shown(*f).as_bytes())),
         }
     }
     fn enc(&self) -> String {
@@ -233,7 +228,9 @@ fn port_subst(sql: &str, ps: &[Val]) -> Option<String> {
                     Parameter::Anonymous | Parameter::Named(_) => { let i = pidx; pidx += 1; i }
                     Parameter::Positional(n) => (*n as usize).saturating_sub(1),
                 };
-                result.push_str(&ps.get(idx)?.shown());
+                let lit = ps.get(idx)?.shown();
+                if lit.starts_with('-') { result.push(' '); }
+                result.push_str(&lit);
                 last_end = sp.end();
             }
             _ => {}
@@ -486,7 +483,7 @@ fn why(path: Path, st: &Stmt, p: &[Vec<Val>; 2], o: &Observed, got: &[Obs]) -> &
     if all().any(|v| *v == Val::Int(i64::MIN)) { return "int_min"; }
     let kind = st.kind();
     let norm: String = st.pieces.iter().map(|x| match x { Piece::Lit(t) => t.chars().filter(|c| !matches!(c, ' ' | '\t' | '\r' | '\n')).collect::<String>(), _ => "?".to_string() }).collect();
-    if path == Path::Qry {
+    if kind == "select" {
         let sql = st.sql();
         let ntok = |s: &str| match real_tokens(s) { Caught::Done(v) => v.len() as i64, _ => -1 };
         for i in 0..2 {
@@ -501,19 +498,14 @@ fn why(path: Path, st: &Stmt, p: &[Vec<Val>; 2], o: &Observed, got: &[Obs]) -> &
                 if want != ntok(sub) { return "tokens_merge"; }
             }
         }
-        if all().any(|v| matches!(v, Val::Float(f) if f.is_finite() && Val::float_shown(*f).chars().all(|c| c.is_ascii_digit() || c == '-'))) { return "float_printed_as_integer"; }
-        return "unexplained";
     }
-    let got_raw = if d1 { got[0].text == o.raw[0].text } else { got[1].text == o.raw[1].text };
-    if (kind == "select" || kind == "delete") && st.has_ph() && got_raw { return "ignored"; }
+    if path == Path::Qry { return "unexplained"; }
     let plus_before_ph = st.pieces.windows(2).any(|w| matches!((&w[0], &w[1]), (Piece::Lit(t), Piece::Anon | Piece::Pos(_)) if t.trim_end().ends_with('+')));
     if kind == "update" && plus_before_ph { return "set_expression"; }
-    if kind == "update" {
+    if kind == "update" || kind == "delete" {
         let mut seen = false; let mut n = 0;
         for x in &st.pieces { match x { Piece::Lit(t) => seen |= t.to_ascii_uppercase().contains("WHERE"), Piece::Anon => { if seen { n += 1; } } _ => {} } }
         if n >= 2 { return "several_anonymous_in_where"; }
-    }
-    if kind == "update" {
         // a blob bound to a placeholder of the WHERE clause
         let mut seen = false; let mut k = 0usize;
         for x in &st.pieces {
@@ -525,12 +517,10 @@ fn why(path: Path, st: &Stmt, p: &[Vec<Val>; 2], o: &Observed, got: &[Obs]) -> &
             }
         }
     }
-    if kind == "delete" && norm == "DELETEFROMtWHEREid=?" && p[0] == p[1] && !d1 && d2 { return "delete_same_key_twice"; }
     if path == Path::Pex && !d1 && d2 {
         let in_order = { let mut k = 1u32; let mut ok = true; for x in &st.pieces { match x { Piece::Anon => k += 1, Piece::Pos(n) => { ok &= *n == k; k += 1; } _ => {} } } ok };
-        if kind == "insert" && !(norm == "INSERTINTOtVALUES(?,?,?,?,?,?)" && in_order) { return "second_execution_noncanonical_insert"; }
-        if kind == "insert" && o.refo[1].kind == 1 && got[1].kind == 0 { return "second_execution_insert_unvalidated"; }
         if kind == "update" && norm.starts_with("UPDATEtSET") && norm.ends_with("WHEREid=?") && !norm.contains(|c| c == '+' || c == '-' || c == '(') { return "second_execution_pk_update"; }
+        if kind == "insert" && norm == "INSERTINTOtVALUES(?,?,?,?,?,?)" && in_order && o.refo[1].kind == 1 && got[1].kind == 0 { return "second_execution_insert_unvalidated"; }
     }
     "unexplained"
 }
@@ -884,13 +874,12 @@ fn gen(a: &Args) {
             lex_case(&mut w, &m, "lex:mutated_statement");
         }
         // ---- end to end
-        // The execute paths ignore the values of every SELECT (finding 1): they are sampled on one
-        // SELECT in eight so that most cases stay outside the recorded classes.
+        // SELECT: the query path on every statement, the two execute paths alternately
         let (n_sel, n_dml) = if a.thorough() { (6_000, 2_400) } else { (420, 150) };
         for i in 0..n_sel {
             let tpl = gen_select(&mut rng);
             let p = [gen_params(&mut rng, &tpl, false, false), gen_params(&mut rng, &tpl, false, true)];
-            let paths: &[Path] = match i % 8 { 0 => &[Path::Qry, Path::Ewp], 4 => &[Path::Qry, Path::Pex], _ => &[Path::Qry] };
+            let paths: &[Path] = if i % 2 == 0 { &[Path::Qry, Path::Ewp] } else { &[Path::Qry, Path::Pex] };
             run_cases(&mut w, &mut sut, &tpl.st, &p, paths, "e2e", &mut stats);
         }
         for i in 0..n_dml {
